@@ -733,6 +733,7 @@ class Parser:
                     # as in CPython, the literal parts of a format spec are not raw even if the f-string is
                     part.format_spec.values = self._finish_fstring_parts(part.format_spec.values, raw=False)
                 if (text := part.__dict__.pop("_debug_text", None)) is not None:
+                    text.value = text.value.replace("\r\n", "\n")  # as in the literal parts
                     finished.append(text)
             finished.append(part)
         return finished
